@@ -23,6 +23,7 @@ import (
 //	    every handle reachable from <param> satisfies the expression afterwards.
 //	except <Kind>[.<Field>] …       kinds/fields excluded (become `requires`
 //	                                 for kinds; listed as assumptions)
+//
 // Reset is the directive `reset <recv> [keep a.b c ...]`: after the call every
 // field of *recv (enumerated from the struct type, so a field added later is in
 // the obligation automatically) is in its empty state - maps and slices have
